@@ -8,7 +8,8 @@ request : {"comps":[{stage,preds,isRepeat,isAgg,isRepl,shutdownOn,restartOn,maxR
            "order":[..], "lastStage":k, "cont":[stages with continue-on-error],
            "ops":[["sched"]|["exit",c]|["fin",c]|["pm",c]|["kill"]|["tick",c]|["next"]|["complete",k]]}
            (["complete",k] = the stage-completion hook of stage k fired: `SOp.complete` of Model/CtrlSplit.lean)
-           optional "launches":[[per component: "task:Reason" | "submitError" | "otherError", one per execution]]
+           optional "launches":[[per component: "task:Reason" | "submitError" | "otherError" | "taskFault:Reason" (the
+           task exits with Reason, then the engine's post-exit pipeline raises), one per execution]]
 answer  : {"snaps":[state after every op], "stageDone", "quiescent", "canAdvance", "verdict", "reports",
            "log", "spec", "own", "engineReasons":[[what EngS.reported says the engine reports after each execution]]} -/
 open Lean Proto St4sd.Ctrl
@@ -28,6 +29,7 @@ def launchOf (s : String) : Except String Launch :=
   if s == "submitError" then pure .submitError
   else if s == "otherError" then pure .otherError
   else if s.startsWith "task:" then do return .task (← reasonOf (s.drop 5).toString)
+  else if s.startsWith "taskFault:" then do return .taskThenFault (← reasonOf (s.drop 10).toString)
   else throw s!"unknown launch {s}"
 
 def fin3Name : Fin3 → String
